@@ -16,6 +16,7 @@ pub mod parse_rt;
 pub mod patterns;
 pub mod query;
 pub mod completions;
+pub mod cli;
 pub mod schedules;
 pub mod scoping;
 pub mod sepcomp;
@@ -40,6 +41,7 @@ pub fn all() -> Vec<Box<dyn Family>> {
         Box::new(query::QueryAgree),
         Box::new(query::HoverAll),
         Box::new(completions::Completions),
+        Box::new(cli::Cli),
         Box::new(scoping::Scoping),
         Box::new(patterns::Patterns),
         Box::new(evalorder::EvalOrder),
